@@ -12,10 +12,13 @@ fn scalars(s: &str) -> Vec<u8> {
     v
 }
 fn debug_fields(n: &NormalizedString) -> (Vec<u8>, u8) {
-    // private fields, read through the derived Debug: NormalizedString { s: [..16 numbers..], length: n }
+    // private fields, read through the derived Debug by FIELD NAME (independent of declaration order):
+    // NormalizedString { s: [..16 numbers..], length: n }
     let d = format!("{:?}", n);
-    let nums: Vec<u32> = d.split(|c: char| !c.is_ascii_digit()).filter(|t| !t.is_empty()).map(|t| t.parse().unwrap()).collect();
-    (nums[..16].iter().map(|x| *x as u8).collect(), nums[16] as u8)
+    let nums = |t: &str| -> Vec<u32> { t.split(|c: char| !c.is_ascii_digit()).filter(|x| !x.is_empty()).map(|x| x.parse().unwrap()).collect() };
+    let arr = d.find("s: [").map(|i| { let r = &d[i + 4..]; nums(&r[..r.find(']').unwrap_or(r.len())]) }).unwrap_or_default();
+    let len = d.find("length: ").map(|i| nums(&d[i + 8..]).first().copied().unwrap_or(0)).unwrap_or(0);
+    (arr.iter().map(|x| *x as u8).collect(), len as u8)
 }
 fn out_new(r: Option<Result<NormalizedString, NormalizedStringError>>) -> Vec<Vec<u8>> {
     match r {
